@@ -523,7 +523,10 @@ def run_edges(desc, ctx):
         for which in order_names[o1]:
             res = ctx.call(wrappers[which], n, elist, backend="python")
             if elist != now:
-                raise Violation("edges:input-list-modified", {"before": now, "after": list(elist)})
+                # C14 does not claim that the caller's list stays untouched: a label, and the answer is judged on the
+                # list the wrapper was given; later calls see whatever the list contains then
+                ctx.label("edges-input-list-modified-by-call")
+                elist[:] = now
             try:
                 got[which] = judge(which, res, n, now)
             except Violation as v:
